@@ -100,7 +100,7 @@ var (
 )
 
 var c40OpHasArg = map[string]bool{
-	"write": true, "writepkt": true, "kick": true, "metrics": true,
+	"write": true, "writepkt": true, "kick": true, "metrics": true, "churn": true, "pathsGetBurst": true, "pmgetBurst": true,
 	"patchHot": true, "patchCold": true, "globalCold": true, "globalServers": true,
 	"addPath": true, "replacePath": true, "pathDefaults": true,
 }
@@ -120,6 +120,9 @@ var c40Menus = map[string][]c40OpSpec{
 		{op: "detach", weight: 3},
 		{op: "safeconf", weight: 2},
 		{op: "pmlist", weight: 1},
+		// many attach/detach cycles in a row: keeps the path inside its ready / not-ready transitions
+		// for milliseconds, so that a query of another actor lands inside one (round-2 seeded change C40-s1)
+		{op: "churn", weight: 2, path: c40MediaPaths, argMax: 25},
 	},
 	"fakerdr": {
 		{op: "attach", weight: 5, path: c40MediaPaths},
@@ -127,6 +130,8 @@ var c40Menus = map[string][]c40OpSpec{
 		{op: "describe", weight: 2, path: c40MediaPaths},
 		{op: "safeconf", weight: 2},
 		{op: "pmlist", weight: 1},
+		// what the API's paths/get does, in a tight loop without HTTP in between (hundreds of queries per ms of churn)
+		{op: "pmgetBurst", weight: 3, path: c40MediaPaths, argMax: 40},
 	},
 	"rtsppub": {
 		{op: "publish", weight: 4, path: c40MediaPaths},
@@ -141,6 +146,7 @@ var c40Menus = map[string][]c40OpSpec{
 	"api": {
 		{op: "pathsList", weight: 3},
 		{op: "pathsGet", weight: 2, path: c40MediaPaths},
+		{op: "pathsGetBurst", weight: 2, path: c40MediaPaths, argMax: 60},
 		{op: "rtspSessionsList", weight: 2},
 		{op: "rtspConnsList", weight: 1},
 		{op: "kick", weight: 3, argMax: 3},
@@ -173,7 +179,7 @@ var (
 // op classes used by the executor and by the non-trivial rule
 var (
 	c40AttachOps = map[string]bool{
-		"fakepub.attach": true, "fakepub.detach": true, "fakerdr.attach": true, "fakerdr.detach": true,
+		"fakepub.attach": true, "fakepub.detach": true, "fakepub.churn": true, "fakerdr.attach": true, "fakerdr.detach": true,
 		"rtsppub.publish": true, "rtsppub.close": true, "rtsprdr.read": true, "rtsprdr.close": true,
 	}
 	c40ReloadOps = map[string]bool{
